@@ -54,6 +54,8 @@ package scorch
 //@   ensures implies(prealloc != nil && emptyIt(prealloc), prealloc.pstarted == old(prealloc.pstarted))
 // set level: the documents the iterator enumerates lie below the segment's count, nothing has been passed yet (the shared empty iterator is not part of a reader's document set)
 //@   ensures implies(!emptyIt(result), result.pfrom == 0 && itDocsOK(result))
+// (zapx leaves out the documents of the exclusion bitmap the postings list was opened with)
+//@   ensures implies(!emptyIt(result), all(x, uint64, implies(result.pdocs[x] && x < 4294967296, !bin(pl.lexcept, uint32(x)))))
 
 // the field a term dictionary is opened for: a field whose index data was dropped by an update
 // of the mapping reads as the empty field
@@ -108,6 +110,8 @@ package scorch
 //@   ensures implies(result1 == nil, tfrShape(rdr(result0)))
 //@   ensures implies(result1 == nil, tfrCursor(rdr(result0)))
 //@   ensures implies(result1 == nil, tfrSet(rdr(result0)))
+// C02: no document that is deleted in this snapshot is among the reader's documents
+//@   ensures implies(result1 == nil, forall(k, 0, len(is.segment), implies(!emptyIt(rdr(result0).iterators[k]), all(x, uint64, implies(rdr(result0).iterators[k].pdocs[x] && x < 4294967296, !bin(is.segment[k].deleted, uint32(x)))))))
 //@   ensures implies(result1 == nil, rdr(result0).includeFreq == includeFreq && rdr(result0).includeNorm == includeNorm && rdr(result0).includeTermVectors == includeTermVectors)
 //@   loop 0: invariant rv != nil && rv.snapshot == is && len(rv.dicts) == len(is.segment) && len(rv.postings) == len(is.segment) && len(rv.iterators) == len(is.segment) && rv.segmentOffset == 0 && rv.currPosting == nil
 //@   loop 0: invariant forall(k, 0, iter, rv.dicts[k] != nil && (emptyDict(rv.dicts[k]) || (rv.dicts[k].dseg == is.segment[k].segment && fieldIs(is, rv.dicts[k].dfield, field))))
@@ -120,6 +124,7 @@ package scorch
 //@   loop 1: invariant rv.glb == 0 && !rv.gstarted
 //@   loop 1: invariant forall(k, 0, iter, implies(!emptyIt(rv.iterators[k]), rv.iterators[k].pfrom == 0))
 //@   loop 1: invariant forall(k, 0, iter, implies(!emptyIt(rv.iterators[k]), itDocsOK(rv.iterators[k])))
+//@   loop 1: invariant forall(k, 0, iter, implies(!emptyIt(rv.iterators[k]), all(x, uint64, implies(rv.iterators[k].pdocs[x] && x < 4294967296, !bin(is.segment[k].deleted, uint32(x))))))
 //@   loop 1: invariant rv.field == field && rv.term == term && rv.includeFreq == includeFreq && rv.includeNorm == includeNorm && rv.includeTermVectors == includeTermVectors
 
 // a statistics counter (wrap-around of the byte count is harmless and not what C02 / C08 are about)
